@@ -536,6 +536,10 @@ def main(args=None):
             # matching disable; do not leave it tracing after the run.
             while prof.enable_count > 0:
                 prof.disable_by_count()
+            if sys.gettrace() is prof:
+                # The program switched the profiler on itself
+                # (`profile.enable()`) and ended before switching it off
+                prof.disable()
         if options.output_interval:
             rt.stop()
         prof.dump_stats(options.outfile)
